@@ -27,7 +27,18 @@ EXPLANATION = (
 def stores_of(F, fid, field):
     """blocks where TransactionBuilder.<field> is stored, directly or through the dedicated setter"""
     ffs = ff.FnFields(F, fid)
-    blocks = [(s[2], "store") for s in ffs.stores_to(TB, field)]
+    fn = F.fns[fid]
+    blocks = []
+    for s in ffs.stores_to(TB, field):
+        rv = s[4]
+        for _ in range(3):
+            if isinstance(rv, list) and rv[0] == "use" and rv[1][0] in ("c", "m"):
+                ds = [st[3] for bb in fn["bbs"] for st in bb["st"] if st[1] == "=" and st[2] == rv[1][1]]
+                if len(ds) == 1:
+                    rv = ds[0]
+                    continue
+            break
+        blocks.append((s[2], "clear" if isinstance(rv, list) and rv[0] == "agg" and rv[3] == "None" else "store"))
     setter = {"collateral_return": "TransactionBuilder::set_collateral_return", "total_collateral": "TransactionBuilder::set_total_collateral"}[field]
     for c in F.calls(fid):
         if (c.to or "").endswith(setter.split("TransactionBuilder")[1]) and "builders::tx_builder::TransactionBuilder" in (c.to or ""):
@@ -82,6 +93,19 @@ def check(rep, F, tier, replay=None):
         if not sts:
             rep.violation("GATE", "total_and_return|collateral_return|missing", "set_total_collateral_and_return no longer sets the collateral return", {})
         for bi, how in sts:
+            if how == "clear":
+                # clearing is allowed only where the decision found nothing to return: it must be control dependent on a test of the remainder
+                rep.inst("GATE")
+                rd = set()
+                for s_ in mp.control_deps(F, fid, bi):
+                    d_ = mp.describe_cond(F, fid, s_, org)
+                    for k_ in ("lhs", "rhs", "of"):
+                        rd |= set(d_.get(k_, []))
+                    for a_ in d_.get("args", []):
+                        rd |= set(a_)
+                if not has_origin(rd, call_origin("Value::checked_sub")):
+                    rep.violation("GATE", "total_and_return|collateral_return|clear", "set_total_collateral_and_return clears the collateral return on a path that does not depend on the remainder (collateral inputs - total)", {})
+                continue
             gs = mp.dominating_guards(F, fid, bi)
             enough = any(d["kind"] == "call" and d["callee"].endswith("PartialOrd::lt") and edge == "0" and has_origin(d["args"][0], call_origin("TxInputsBuilder::total_value")) and "arg:2" in d["args"][1] for s, edge, d in gs)
             min_ada = any(d["kind"] == "call" and "PartialOrd" in d["callee"] and d["callee"].endswith("::gt") and edge == "0" and has_origin(d["args"][0], call_origin("min_ada_for_output")) and has_origin(d["args"][1], call_origin("Value::checked_sub")) for s, edge, d in gs)
@@ -219,6 +243,44 @@ def check(rep, F, tier, replay=None):
             rep.violation("REGISTER-last", "TxInputsBuilder::push_input|%s" % ",".join(keeps_first), "push_input keeps an existing registration (%s) instead of replacing it: an outpoint added again with its actual value keeps the stale first amount, and collateral return + total no longer equal the collateral inputs" % ", ".join(keeps_first), {})
         elif not any(t.endswith("BTreeMap::<K, V, A>::insert") for t in tos):
             rep.lost("TxInputsBuilder::push_input no longer stores through BTreeMap::insert (re-anchor REGISTER-last)")
+    # CO-return: return and total are written together
+    rep.rule("CO-return", "every function that computes a collateral return (stores Some(output) into collateral_return) and sets the total collateral writes collateral_return on every path to its success return - Some(output) or None: a return left by an earlier call never stays next to a new total")
+    from collections import deque as _dq
+    TB_ = "builders::tx_builder::TransactionBuilder"
+    n_co = 0
+    for fid_, fn_ in F.fns.items():
+        if "/tests/" in fn_["file"] or F.is_derived(fid_):
+            continue
+        ffs_ = ff.FnFields(F, fid_)
+        st_ = ffs_.stores_to(TB_, "collateral_return")
+        sets_total = bool(ffs_.stores_to(TB_, "total_collateral")) or any((c.to or "").endswith("TransactionBuilder::set_total_collateral") for c in F.calls(fid_))
+        setter_bbs = {c.bb for c in F.calls(fid_) if (c.to or "").endswith("TransactionBuilder::set_collateral_return")}
+        if (not st_ and not setter_bbs) or not sets_total or F.key(fid_).endswith("::set_collateral_return"):
+            continue
+        some_store = bool(setter_bbs) or any(how == "store" for bi, how in stores_of(F, fid_, "collateral_return"))
+        if not some_store:
+            continue
+        n_co += 1
+        rep.inst("CO-return")
+        store_bbs = {s_[2] for s_ in st_} | setter_bbs
+        succ_ = {i_: [x_ for x_ in mp._succs(fn_, i_) if x_ is not None and not fn_["bbs"][x_]["c"]] for i_ in range(len(fn_["bbs"])) if not fn_["bbs"][i_]["c"]}
+        oks = {bi for bi, kind, loc in mp.success_stores(F, fid_)}
+        dq, seen_ = _dq([0]), {0}
+        bad = False
+        while dq:
+            x_ = dq.popleft()
+            if x_ in store_bbs:
+                continue
+            if x_ in oks:
+                bad = True
+                break
+            for y_ in succ_.get(x_, []):
+                if y_ not in seen_:
+                    seen_.add(y_)
+                    dq.append(y_)
+        if bad:
+            rep.violation("CO-return", F.key(fid_), "%s can reach its success return without writing collateral_return (the branch where nothing is left to return): after set_total_collateral_and_return(3 of 5 ADA) a second call with the full 5 ADA keeps the old 2 ADA return next to total 5 - inputs != return + total" % F.key(fid_), {})
+    rep.floor("functions computing collateral return and total together", 2, n_co)
     from ruleutil import value_sub_total_rule
     value_sub_total_rule(rep, F)
     return rep.finish(
